@@ -24,8 +24,12 @@ def run(R, ctx):
     rule = R.rule
     concsuite.run_conc(R, ctx, "zset-conc", ['addrem', 'bigread'], (2, 12), race=False)
     R.rule = rule + " Concurrent scenario(s) addrem,bigread of the conc engine (see C05): the family's containers under concurrent clients, verdict by invariants that need no history search."
+    families.alias_probe(R, ctx, "zset")
+
 
 def replay(R, payload):
+    if payload.get("engine") == "alias":
+        return families.alias_replay(R, payload)
     if payload.get("engine") == "conc":
         return concsuite.replay_conc(R, payload)
     return core.generic_replay(R, payload)
